@@ -97,7 +97,8 @@ func cost(p Point) int {
 // Config bounds the enumeration.
 type Config struct {
 	Budgets  map[string]int // per class: maximal total cost of deviations; a class not listed is unbounded
-	Total    int            // if >0: maximal total cost over all classes
+	Total    int            // if >0: maximal total cost over all classes not listed in Free
+	Free     []string       // classes that do not count towards Total (configuration dimensions)
 	Workers  int
 	MaxExec  int64         // cap (0 = none); hitting it is reported, never silent
 	Deadline time.Duration // cap (0 = none)
@@ -150,13 +151,19 @@ func Explore(cfg Config, body func(*Ctx)) Stats {
 		stop    atomic.Bool
 		started = time.Now()
 	)
+	free := map[string]bool{}
+	for _, f := range cfg.Free {
+		free[f] = true
+	}
 	fits := func(pts []Point) bool {
 		per := map[string]int{}
 		tot := 0
 		for _, p := range pts {
 			k := cost(p)
 			per[p.Class] += k
-			tot += k
+			if !free[p.Class] {
+				tot += k
+			}
 		}
 		if cfg.Total > 0 && tot > cfg.Total {
 			return false
